@@ -33,3 +33,22 @@ pub fn ev(name: &'static str, id: Option<Uuid>) {
         f(name, id)
     }
 }
+
+/// A direct-update target that hands every update to a harness callback
+/// (synchronously, on the publisher's task, like `RibUnitRunner`).
+pub struct FnTarget(pub Arc<dyn Fn(crate::payload::Update) + Send + Sync>);
+
+impl std::fmt::Debug for FnTarget {
+    fn fmt(&self, f: &mut std::fmt::Formatter<'_>) -> std::fmt::Result {
+        f.write_str("FnTarget")
+    }
+}
+
+#[async_trait::async_trait]
+impl crate::comms::DirectUpdate for FnTarget {
+    async fn direct_update(&self, update: crate::payload::Update) {
+        (self.0)(update)
+    }
+}
+
+impl crate::comms::AnyDirectUpdate for FnTarget {}
